@@ -121,6 +121,7 @@ func main() {
 	out := flag.String("out", "", "result json")
 	every := flag.Int("api-every", 7, "run every k-th vector through the HTTP API")
 	maxN := flag.Int("maxn", 6, "largest list for the paging check")
+	maxBatches := flag.Int("batches", 150, "number of three-entry groups posted as one release request (each in two orders)")
 	flag.Parse()
 	b, err := os.ReadFile(*in)
 	if err != nil {
@@ -240,6 +241,72 @@ func main() {
 		}
 		prevKey = ko.KeyInDB
 	}
+	// ---- batches: one POST with several listed entries releases every one of them, whatever the other entries of the
+	// request are (KeyCodec.EntryKey depends on the entry alone): groups of three sampled pods with distinct keys, the
+	// statefulset entries with appType omitted, in list order and reversed
+	batches := 0
+	var group []vector
+	flush := func() {
+		defer func() { group = nil }()
+		for _, rev := range []bool{false, true} {
+			a := newAPI()
+			names := map[string]string{} // ip string -> ip name
+			for _, gv := range group {
+				ko, err := util.FormatKey(podOf(gv))
+				if err != nil {
+					return
+				}
+				ip, err := a.w.Inner.AllocateInSubnet(ko.KeyInDB, env.SubnetNet("s1"), floatingip.Attr{})
+				if err != nil {
+					return
+				}
+				names[ip.String()] = env.IPName(ip)
+			}
+			content, _ := a.list("size=100")
+			var entries []api.FloatingIP
+			for _, e := range content {
+				if _, ok := names[e.IP]; ok {
+					if e.AppType == "statefulset" {
+						e.AppType = ""
+					}
+					entries = append(entries, e)
+				}
+			}
+			// deployments and other kinds first, so that an entry without appType follows one that carries another type
+			sort.SliceStable(entries, func(i, j int) bool { return (entries[i].AppType != "") && (entries[j].AppType == "") })
+			if rev {
+				for i, j := 0, len(entries)-1; i < j; i, j = i+1, j-1 {
+					entries[i], entries[j] = entries[j], entries[i]
+				}
+			}
+			batches++
+			code, body := a.do("POST", "/v1/ip", api.ReleaseIPReq{IPs: entries})
+			for ipStr, name := range names {
+				if a.keyOf(name) != "" {
+					add("list-then-release", group[0], fmt.Sprintf("batch of %d listed entries (statefulset appType omitted, reversed=%v): %s (%s) was not released: http %d %s", len(entries), rev, name, ipStr, code, string(body)))
+				}
+			}
+		}
+	}
+	gkeys := map[string]bool{}
+	for i, v := range f.Vectors {
+		if i%*every != 0 || batches >= 2*(*maxBatches) {
+			continue
+		}
+		if gkeys[v.Key] {
+			continue
+		}
+		// mix kinds inside a group: take the vector only if its kind differs from the last one's
+		if len(group) > 0 && group[len(group)-1].Kind == v.Kind {
+			continue
+		}
+		gkeys[v.Key] = true
+		group = append(group, v)
+		if len(group) == 3 {
+			flush()
+			gkeys = map[string]bool{}
+		}
+	}
 	// ---- paging: n allocated ips, every page size
 	pagings := 0
 	for n := 0; n <= *maxN; n++ {
@@ -289,7 +356,7 @@ func main() {
 			}
 		}
 	}
-	res := map[string]interface{}{"vectors": len(f.Vectors), "codec": codec, "api": apiRuns, "pagings": pagings, "findings": findings}
+	res := map[string]interface{}{"vectors": len(f.Vectors), "codec": codec, "api": apiRuns, "batches": batches, "pagings": pagings, "findings": findings}
 	ob, _ := json.MarshalIndent(res, "", " ")
 	if *out != "" {
 		_ = os.WriteFile(*out, ob, 0644)
